@@ -163,16 +163,36 @@ func (c *Ctx) pkgBySuffix(suffix string) *ssa.Package {
 	return c.SSA[full]
 }
 
-// Fn resolves "pkg/suffix", "Func" | "(*T).M" | "T.M" | "Func$1".
+// Fn resolves "pkg/suffix", "Func" | "(*T).M" | "T.M" | "Func$1". When the name no longer exists (an unexported
+// function was renamed) the anchor's structural role (roles.go) is tried before the anchor is reported unresolved.
 func (c *Ctx) Fn(pkgSuffix, name string) *ssa.Function {
-	sp := c.pkgBySuffix(pkgSuffix)
-	if sp == nil {
-		return nil
-	}
 	base := name
 	anon := ""
 	if i := strings.Index(name, "$"); i >= 0 {
 		base, anon = name[:i], name[i:]
+	}
+	fn := c.fnByName(pkgSuffix, base)
+	if fn == nil {
+		fn = c.fnByRole(pkgSuffix, base)
+	}
+	if fn == nil {
+		return nil
+	}
+	if anon != "" {
+		for _, a := range allAnon(fn) {
+			if a.Name() == fn.Name()+anon {
+				return a
+			}
+		}
+		return nil
+	}
+	return fn
+}
+
+func (c *Ctx) fnByName(pkgSuffix, base string) *ssa.Function {
+	sp := c.pkgBySuffix(pkgSuffix)
+	if sp == nil {
+		return nil
 	}
 	var fn *ssa.Function
 	if strings.HasPrefix(base, "(*") || strings.Contains(base, ".") {
@@ -199,17 +219,6 @@ func (c *Ctx) Fn(pkgSuffix, name string) *ssa.Function {
 		fn = c.Prog.MethodValue(sel)
 	} else {
 		fn = sp.Func(base)
-	}
-	if fn == nil {
-		return nil
-	}
-	if anon != "" {
-		for _, a := range allAnon(fn) {
-			if strings.HasSuffix(a.Name(), anon) && a.Name() == fn.Name()+anon {
-				return a
-			}
-		}
-		return nil
 	}
 	return fn
 }
